@@ -37,6 +37,10 @@ THEOREMS = [f"NauyacaVerif.C10.{t}" for t in (
     "noninterference", "cleanup_refines", "cleanup_keeps_allowance",
     "age_tie", "period_tie", "evict_tie", "atomic_tie", "line_tie")] + ['NauyacaVerif.Translated.consume_eq', 'NauyacaVerif.Translated.consume_frame']
 TRANSLATED = ['consume']
+# the filter of the comprehension in RateLimiter._cleanup_loop (which buckets a pass removes), translated and proved to be Mw.cleanup's predicate
+LEAN_TARGETS = LEAN_TARGETS + ["NauyacaVerif.Props.Tr.Evictable"]
+TRANSLATED = TRANSLATED + ["evictable"]
+THEOREMS = list(THEOREMS) + [f"NauyacaVerif.Translated.{t}" for t in ("evictable_eq", "cleanup_is_filter", "evictable_full")]
 EXTRACT = ["cleanupPeriod", "cleanupAge", "evictOnlyRefilled", "limiterAtomic"]
 EXTRACT_EXPECT = {"evictOnlyRefilled": True, "limiterAtomic": True}
 ASSUMPTIONS = [
